@@ -9,7 +9,9 @@ CONSTANTS
   NS3 = 0
   NSBIG = 0
   NCAP = 0
+  HOF = 0
   MAXD = 3
+  MAXDSLOW = 2
   LEN = 1
   MUTANT = FALSE
 INVARIANTS TypeOK Emit Proto
